@@ -19,7 +19,7 @@ OWNER = {
     "ReloadCall": {"C05"}, "ReloadRet": {"C05"},
     "SubRecv": {"C06"}, "SubClosed": {"C06", "C18"}, "Subscribe": {"C06"}, "SubCancel": {"C06"},
     "RunRet": {"C01", "C04"},
-    "Crash": set(ALL_IDS), "Watchdog": {"C02"},
+    "Crash": set(ALL_IDS), "Watchdog": {"C02"}, "Overdue": {"C02"},
 }
 SNAPDIAG_OWNER = {"1": {"C02", "C05", "C06", "C18"}, "2": {"C02"}, "3": {"C06"}, "4": {"C02", "C04"}, "5": {"C18"}}
 PROP_OF_MONITOR = {"C01.order": "C01", "C01.exactly_once": "C01", "C01.not_before": "C01", "C03.gate": "C03", "C03.pending": "C03", "C01.cancel_after": "C01", "C03.once": "C03", "C04.nil": "C04", "C04.reports": "C04",
@@ -159,7 +159,7 @@ def run_property(run, pid, families, prop_file, proof_files, n_quick=210, n_thor
             # otherwise only the correspondence is broken
             own_fail = [x for x in lines if x.startswith("PROPFAIL") and scn_of(x) == (seed, fam)
                         and PROP_OF_MONITOR.get(x.split()[1]) == pid]
-            crash = "Crash" in l or "Watchdog" in l
+            crash = "Crash" in l or "Watchdog" in l or "Overdue" in l
             # C02 is the progress property: the model rejects a Quiet event exactly when every model state
             # consistent with the trace still has a mandatory step enabled, i.e. the implementation is
             # observed blocked where the proved progress theorems say it must move: that scenario is the failing input
